@@ -133,7 +133,8 @@ func (a Keyvault) GetPrivateKey(ctx context.Context, keyName string, version str
 	if err != nil {
 		return nil, err
 	}
-	publicKey, signingAlgorithm, _, err := parseKey(response.Key)
+	// keyVersion is the version of the key that was actually returned (also when the requested version is empty, meaning "latest")
+	publicKey, signingAlgorithm, keyVersion, err := parseKey(response.Key)
 	if err != nil {
 		return nil, err
 	}
@@ -141,6 +142,7 @@ func (a Keyvault) GetPrivateKey(ctx context.Context, keyName string, version str
 		client:           a.client,
 		timeOut:          a.timeOut,
 		keyName:          keyName,
+		keyVersion:       keyVersion,
 		publicKey:        publicKey,
 		signingAlgorithm: signingAlgorithm,
 	}, nil
@@ -232,6 +234,7 @@ type azureSigningKey struct {
 	client           keyVaultClient
 	timeOut          time.Duration
 	keyName          string
+	keyVersion       string
 	publicKey        crypto.PublicKey
 	signingAlgorithm azkeys.SignatureAlgorithm
 }
@@ -247,7 +250,9 @@ func (a azureSigningKey) Sign(_ io.Reader, digest []byte, opts crypto.SignerOpts
 	if opts != nil && opts.HashFunc() == 0 {
 		return nil, errors.New("hashing should've been done")
 	}
-	response, err := a.client.Sign(ctx, a.keyName, "", azkeys.SignParameters{
+	// Sign with the version of the key that publicKey belongs to: an empty version addresses the latest version of the key,
+	// which is another key pair after the key got a new version (rotation).
+	response, err := a.client.Sign(ctx, a.keyName, a.keyVersion, azkeys.SignParameters{
 		Algorithm: to.Ptr(a.signingAlgorithm),
 		Value:     digest,
 	}, nil)
